@@ -109,6 +109,13 @@ def gen(rng, idx, tier):
         ops.append({"on_accept": ai, "d": d0, "op": "send", "msg": session.sendable(rng, multi=True), "id": oid})
         ops.append({"on_accept": ai, "d": d0 + rng.choice([0.0, 0.001, 0.06, 0.3]), "op": "close", "id": oid + 1})
         oid += 2
+    if rng.random() < 0.08:
+        # close() awaited from inside a callback (the caller is then one of the client's own tasks)
+        ops = [o for o in ops if o["op"] != "close"]
+        if rng.random() < 0.7:
+            plan["cb"]["recv"]["close_at"] = rng.choice([0, 0, 1, 2, 4])
+        else:
+            plan["cb"]["status"]["close_at"] = rng.choice([0, 1, 2])
     plan["ops"] = ops
     return plan
 
